@@ -218,7 +218,58 @@ def triage(ctx, A, since, rid, facts, scope_filter=None):
     return by_kind
 
 
-def check_visited(ctx, A, bodies, rid):
+def static_reach(F, root_defs):
+    """over-approximate static call graph closure from root_defs: resolved callees, every impl of an unresolved trait method,
+    closures of a reached body and function items mentioned as constants"""
+    impls = {}
+    for b in F.bodies.values():
+        if b.get("impl_trait") and b.get("name"):
+            impls.setdefault((b["impl_trait"], b["name"]), []).append(b["def"])
+    edges = {}
+
+    def consts(x, out):
+        if isinstance(x, dict):
+            t = x.get("ty")
+            if x.get("k") == "const" and isinstance(t, dict) and t.get("k") == "fndef" and t.get("def") in F.bodies:
+                out.add(t["def"])
+            for v in x.values():
+                consts(v, out)
+        elif isinstance(x, list):
+            for v in x:
+                consts(v, out)
+    for b in F.bodies.values():
+        out = set()
+        for blk in b["blocks"]:
+            t = blk["term"]
+            if t["k"] == "call":
+                c = t.get("callee") or {}
+                r = (c.get("resolved") or {}).get("def")
+                if r in F.bodies:
+                    out.add(r)
+                elif c.get("def") in F.bodies:
+                    out.add(c["def"])
+                if c.get("trait") and c.get("method") and r not in F.bodies:
+                    out.update(impls.get((c["trait"], c["method"]), ()))
+        consts(b["blocks"], out)
+        pre = b["def"] + "::{closure"
+        for d in F.bodies:
+            if d.startswith(pre):
+                out.add(d)
+        edges[b["def"]] = out
+    reach = set()
+    todo = list(root_defs)
+    while todo:
+        d = todo.pop()
+        if d in reach:
+            continue
+        reach.add(d)
+        todo.extend(edges.get(d, ()))
+    return reach
+
+
+def check_visited(ctx, A, bodies, rid, F=None, roots=None):
+    """in-scope bodies the analysis did not enter.  With F and roots given, bodies that are not even statically reachable
+    from the roots (dead code: no caller at all, e.g. after a refactoring) are not reported: nothing the API can do runs them."""
     names = set()
     for k in A.ip.visited:
         names.add(k.split("{")[0] if not k.startswith("<") else k)
@@ -232,11 +283,17 @@ def check_visited(ctx, A, bodies, rid):
         if any(k == d or k.startswith(d + "{") for k in vis):
             visited_defs.add(d)
     missing = []
+    reach = static_reach(F, roots) if F is not None and roots is not None else None
+    dead = []
     for b in bodies:
         if b["def"] in visited_defs:
             ctx.count(rid + "-VISITED")
+        elif reach is not None and b["def"] not in reach:
+            dead.append(b["def"])
         else:
             missing.append(b)
+    if dead:
+        ctx.cov.setdefault("statically_unreachable_bodies", sorted(set(dead)))
     return missing
 
 
